@@ -24,6 +24,7 @@ def warmup():
     import z3  # noqa: F401
 
     S.ref_ctx()
+    install_probes(claripy)
     for i in range(6):
         rec = generate("C11", 12345, i, {})
         rec["config"]["salt"] = 0
@@ -35,6 +36,47 @@ def warmup():
     for b in (claripy.backends.z3, claripy.backends.concrete, claripy.backends.vsa):
         b.downsize()
     gc.collect()
+
+
+PROBES = {}
+
+
+def install_probes(claripy):
+    """Rare-condition probes (DESIGN 2.5): counting wrappers, installed once per process, never used for verdicts.
+    A probe stuck at 0 in the evidence means the workload does not reach that branch."""
+    import functools
+
+    if PROBES.get("_installed"):
+        return
+    PROBES["_installed"] = True
+
+    def count(cls, name, label, when=None):
+        orig = getattr(cls, name)
+
+        @functools.wraps(orig)
+        def w(*a, **k):
+            if when is None or when(*a, **k):
+                PROBES[label] = PROBES.get(label, 0) + 1
+            return orig(*a, **k)
+
+        setattr(cls, name, w)
+
+    fe = claripy.frontend
+    count(fe.composite_frontend.CompositeFrontend, "_claim", "composite_cow_claim", lambda self, s: s not in self._owned_solvers)
+    count(fe.composite_frontend.CompositeFrontend, "_reabsorb_solver", "composite_reabsorb")
+    count(fe.composite_frontend.CompositeFrontend, "_split_child", "composite_split_child")
+    count(fe.mixin.model_cache_mixin.ModelCacheMixin, "combine", "model_cache_combine")
+    count(fe.mixin.model_cache_mixin.ModelCacheMixin, "update", "model_cache_update")
+    count(fe.mixin.model_cache_mixin.ModelCacheMixin, "_trivial_model_optimization", "trivial_model_shortcut")
+    count(fe.replacement_frontend.ReplacementFrontend, "add_replacement", "replacement_learnt")
+    count(claripy.backends.backend_z3.BackendZ3, "clone_solver", "z3_solver_cloned")
+    count(claripy.backends.backend_z3.SmartLRUCache, "popitem", "ast_lru_eviction")
+    count(fe.mixin.sat_cache_mixin.SatCacheMixin, "unsat_core", "cached_pairwise_core_served",
+          lambda self, *a, **k: self._cached_unsat_core is not None)
+
+
+def probe_snapshot():
+    return {k: v for k, v in PROBES.items() if not k.startswith("_")}
 
 
 def generate(prop, seed, idx, opts):
@@ -159,6 +201,7 @@ def execute_one(rec, want_checks=False, light=False):
     seam.install()
     m = Machine(rec, claripy, seam)
     out = {"status": "ok"}
+    before = probe_snapshot()
     try:
         m.run()
     except _Excluded as ex:
@@ -178,6 +221,9 @@ def execute_one(rec, want_checks=False, light=False):
     m.stats["faults_fired"] = len(seam.fired)
     out["stats"] = m.stats
     out["fired"] = seam.fired
+    after = probe_snapshot()
+    out["cov"] = {k: after[k] - before.get(k, 0) for k in after if after[k] - before.get(k, 0)}
+    out["cov"]["answered_without_z3_check"] = m.stats.get("cache_answers", 0)
     out["nontrivial"] = m.stats["queries"] >= 2 and m.stats["adds"] >= 1
     out["handles"] = sorted({h.cls for h in m.handles})
     if rec.get("want_answers"):
